@@ -5,7 +5,7 @@
 From Coq Require Import List String Bool Arith ZArith.
 From Helm Require Import Common.Assoc Engine.Types Engine.Eff Engine.Ops Engine.Cluster Engine.Seq
   Engine.SeqProofs Engine.LedgerBase Engine.LedgerPieces Engine.LedgerRev Engine.LedgerDep
-  Engine.LedgerPrune.
+  Engine.LedgerPrune Engine.LedgerRecover.
 Import ListNotations.
 Local Open Scope string_scope.
 
@@ -154,3 +154,70 @@ Qed.
 
 Lemma dead_resp_honest : forall x, dead_resp (SCreate x) <> SOk.
 Proof. intros x. simpl. discriminate. Qed.
+
+(* ---- narrow H1: a write failure that IS tolerated, then the stuck case and its way out ---- *)
+
+(* solves h1_history / fail_hits_only goals on concrete histories *)
+Ltac h1_solve :=
+  vm_compute; repeat split; try exact I;
+  try (let H := fresh "H" in intros H; decompose [and] H; discriminate);
+  try (let X := fresh "X" in intros _ X; discriminate X).
+
+(* install; upgrade whose wait fails AND whose "failed" status write (3rd write) fails: revision 2
+   stays pending-upgrade; the next upgrade is refused; rollback recovers *)
+Definition wf_history : list hstep :=
+  [ HOp (mkOp (OpInstall fl0 1 1 [cm "a" "v1"] []) nosf nocf);
+    HOp (mkOp (OpUpgrade fl0 2 2 [cm "a" "v2"] []) (mkSF (Some 2) None) (mkCF None None true));
+    HOp (mkOp (OpUpgrade fl0 3 3 [cm "a" "v3"] []) nosf nocf);
+    HOp (mkOp (OpRollback fl0) nosf nocf) ].
+
+Lemma narrow_h1_instance :
+  h1_history "rel" "default" wf_history w0 /\ h2_history "rel" "default" wf_history w0 /\
+  ~ h1_holds wf_history /\
+  views wf_history = [ [(1, SDeployed)]; [(1, SDeployed); (2, SPendingUpgrade)];
+                       [(1, SDeployed); (2, SPendingUpgrade)];
+                       [(1, SSuperseded); (2, SPendingUpgrade); (3, SDeployed)] ] /\
+  outs wf_history = [OOk; OErr EOtherErr; OErr EPending; OOk].
+Proof.
+  split; [h1_solve|]. split; [vm_compute; repeat split; auto|].
+  split; [|split; vm_compute; reflexivity].
+  intros H. specialize (H _ (or_intror (or_introl eq_refl))). discriminate H.
+Qed.
+
+(* the failing write is the final "deployed" write of install: tolerated for the invariant
+   (fail_ok2), not for the success postcondition (fail_ok3) *)
+Lemma narrow_h1_final_write :
+  h1_history "rel" "default" k2b_history w0 /\ ndeps k2b_history = [0] /\
+  ~ fail_hits_only kstate (kube_handle "rel" "default") dead_resp "rel" "default" fail_ok3
+      (OpInstall fl0 1 1 [cm "a" "v1"] []) (mkSF (Some 1) None) [] (mkK [] None None false).
+Proof.
+  split; [h1_solve|]. split; [vm_compute; reflexivity|].
+  vm_compute. intros H. decompose [and] H.
+  match goal with X : _ -> _ /\ (SDeployed = SDeployed -> False) /\ _ |- _ =>
+    destruct X as [_ [X' _]]; [repeat split|apply X'; reflexivity] end.
+Qed.
+
+(* crashed install: install --replace, upgrade and rollback are refused; uninstall, then install *)
+Definition ci_history : list hstep :=
+  [ HOp (mkOp (OpInstall fl0 1 1 [cm "a" "v1"] []) (mkSF None (Some 1)) nocf);
+    HOp (mkOp (OpInstall (mkFlags false false false true 0 false false false false 0) 2 2 [cm "a" "v2"] []) nosf nocf);
+    HOp (mkOp (OpUpgrade fl0 3 3 [cm "a" "v3"] []) nosf nocf);
+    HOp (mkOp (OpRollback fl0) nosf nocf);
+    HOp (mkOp (OpUninstall fl0) nosf nocf);
+    HOp (mkOp (OpInstall fl0 4 4 [cm "a" "v4"] []) nosf nocf) ].
+
+Lemma crashed_install_instance :
+  views ci_history = [ [(1, SPendingInstall)]; [(1, SPendingInstall)]; [(1, SPendingInstall)];
+                       [(1, SPendingInstall)]; []; [(1, SDeployed)] ] /\
+  outs ci_history = [OCrashed; OErr ENameInUse; OErr EPending; OErr EOtherErr; OOk; OOk].
+Proof. split; vm_compute; reflexivity. Qed.
+
+(* uninstall --keep-history whose final "uninstalled" write fails: success, head stays uninstalling
+   (the third shape of K2; excluded from the success postcondition by fail_ok3) *)
+Definition k2c_history : list hstep :=
+  [ HOp (mkOp (OpInstall fl0 1 1 [cm "a" "v1"] []) nosf nocf);
+    HOp (mkOp (OpUninstall (mkFlags false false true false 0 false false false false 0)) (mkSF (Some 1) None) nocf) ].
+
+Lemma success_needs_h1_uninstall :
+  views k2c_history = [ [(1, SDeployed)]; [(1, SUninstalling)] ] /\ outs k2c_history = [OOk; OOk].
+Proof. split; vm_compute; reflexivity. Qed.
